@@ -519,6 +519,137 @@ def render_include(facts):
             "Definition walk_skips_walked : bool := %s.\n" % ("true" if facts.get("walk_skips_walked") else "false"))
 
 
+# ---------------------------------------------------------------- grammar (idl_grammar.pest -> gen/Grammar.v)
+PEST_BUILTINS = {"ANY": "PAny", "NEWLINE": "PNewline", "SOI": "PSoi", "EOI": "PEoi", "ASCII_ALPHA": "PCls CAlpha",
+                 "ASCII_DIGIT": "PCls CDigit", "ASCII_ALPHANUMERIC": "PCls CAlnum", "ASCII_HEX_DIGIT": "PCls CHex"}
+
+
+def coq_string(t):
+    if all(32 <= ord(ch) < 127 for ch in t):
+        return '"' + t.replace('"', '""') + '"'
+    if any(ord(ch) > 127 for ch in t):
+        raise ValueError("non-ASCII character in a grammar literal")
+    e = '""'
+    for ch in reversed(t):
+        e = "(String (Ascii.ascii_of_nat %d) %s)" % (ord(ch), e)
+    return e
+
+
+class PestParser:
+    """the subset of pest's grammar syntax that idl_grammar.pest uses: rules `name = mod? { e }`
+    with mod in _ @ $, choice |, sequence ~, prefix !, postfix * + ?, strings, identifiers and
+    parentheses.  Anything else is a translator problem (reported, never guessed)."""
+
+    def __init__(self, text):
+        self.toks = re.findall(r'"(?:[^"\\]|\\.)*"|[A-Za-z_][A-Za-z_0-9]*|[=_@$!{}()|~*+?]|//[^\n]*|\S', text)
+        self.toks = [t for t in self.toks if not t.startswith("//")]
+        self.i = 0
+
+    def peek(self):
+        return self.toks[self.i] if self.i < len(self.toks) else None
+
+    def next(self):
+        t = self.peek()
+        self.i += 1
+        return t
+
+    def expect(self, t):
+        if self.next() != t:
+            raise ValueError("expected %r near token %d (%r)" % (t, self.i, self.toks[max(0, self.i - 3):self.i + 2]))
+
+    def rules(self):
+        out = []
+        while self.peek() is not None:
+            name = self.next()
+            if not re.match(r"[A-Za-z_]\w*$", name):
+                raise ValueError("rule name expected, got %r" % name)
+            self.expect("=")
+            kind = "KNormal"
+            if self.peek() in ("_", "@", "$"):
+                kind = {"_": "KSilent", "@": "KAtomic", "$": "KCompound"}[self.next()]
+            elif self.peek() == "!":
+                raise ValueError("non-atomic rule modifier is not modelled")
+            self.expect("{")
+            e = self.choice()
+            self.expect("}")
+            out.append((name, kind, e))
+        return out
+
+    def choice(self):
+        e = self.seq()
+        if self.peek() == "|":
+            self.next()
+            return "(PAlt %s %s)" % (e, self.choice())       # right-nested like pest's own AST
+        return e
+
+    def seq(self):
+        e = self.prefix()
+        if self.peek() == "~":
+            self.next()
+            return "(PSeq %s %s)" % (e, self.seq())
+        return e
+
+    def prefix(self):
+        if self.peek() == "!":
+            self.next()
+            return "(PNot %s)" % self.prefix()
+        if self.peek() == "&":
+            raise ValueError("positive lookahead is not modelled")
+        return self.postfix()
+
+    def postfix(self):
+        e = self.atom()
+        while self.peek() in ("*", "+", "?"):
+            e = "(%s %s)" % ({"*": "PStar", "+": "PPlus", "?": "POpt"}[self.next()], e)
+        if self.peek() == "{":
+            # a `{n}` repetition would start here inside an expression; a rule body's closing is `}`
+            pass
+        return e
+
+    def atom(self):
+        t = self.next()
+        if t is None:
+            raise ValueError("unexpected end of grammar")
+        if t == "(":
+            e = self.choice()
+            self.expect(")")
+            return e
+        if t.startswith('"'):
+            body = bytes(t[1:-1], "utf8").decode("unicode_escape")
+            return "(PStr %s)" % coq_string(body)
+        if re.match(r"[A-Za-z_]\w*$", t):
+            if t in PEST_BUILTINS:
+                return "(%s)" % PEST_BUILTINS[t] if " " in PEST_BUILTINS[t] else PEST_BUILTINS[t]
+            if t.isupper() and t not in ("WHITESPACE", "COMMENT", "DOCUMENTATION") and not t.startswith("COMMENT_VARIANT"):
+                raise ValueError("built-in rule %s is not modelled" % t)
+            return '(PRef "%s")' % t
+        raise ValueError("token %r is not modelled" % t)
+
+
+def scrape_grammar():
+    facts, problems = {}, []
+    try:
+        rules = PestParser(read("idlc_ast/src/idl_grammar.pest")).rules()
+    except ValueError as e:
+        return facts, ["idl_grammar.pest: " + str(e)]
+    names = [r[0] for r in rules]
+    if len(set(names)) != len(names) or "idl" not in names:
+        problems.append("idl_grammar.pest: duplicate rule names or no rule `idl`")
+    facts["rules"] = rules
+    return facts, problems
+
+
+def render_grammar(facts):
+    out = ["(* GENERATED by lib/translate.py from idlc_ast/src/idl_grammar.pest: the grammar as a value of Peg.grammar. *)",
+           "Require Import Base Peg.", "Open Scope string_scope.", "Open Scope list_scope.", "",
+           "Definition idl_grammar : grammar := ["]
+    rs = facts["rules"]
+    for k, (name, kind, e) in enumerate(rs):
+        out.append('  mkRule "%s" %s %s%s' % (name, kind, e, ";" if k + 1 < len(rs) else ""))
+    out.append("].")
+    return "\n".join(out) + "\n"
+
+
 def render_consts(facts):
     return ("(* GENERATED by lib/translate.py: the text Primitive::new parses for floating-point constants. *)\nRequire Import Base.\n\n"
             "Definition float_parsed_as_written : bool := %s.\n" % ("true" if facts["float_parsed_as_written"] else "false"))
@@ -612,6 +743,11 @@ def main(outdir, probe=None):
     F.items["include"] = incf
     if not iproblems:
         write_if_changed(os.path.join(outdir, "IncludeFacts.v"), render_include(incf))
+    gf, gproblems = scrape_grammar()
+    F.problems += gproblems
+    F.items["grammar_rules"] = len(gf.get("rules", []))
+    if not gproblems:
+        write_if_changed(os.path.join(outdir, "Grammar.v"), render_grammar(gf))
     cf, cproblems = scrape_conc()
     F.problems += cproblems
     F.items["conc"] = cf
